@@ -50,7 +50,7 @@ Values == [i \in 1..(Len(ScalarTable) * 6) |-> Deco(ScalarTable[((i - 1) \div 6)
           \o [i \in 1..(Len(Colls) * 6) |-> Deco(Colls[((i - 1) \div 6) + 1], ((i - 1) % 6) + 1)]
 
 \* ---- templates: T(t, x) places the value x
-NTemplates == 13
+NTemplates == 14
 HCd(x, h) == IF h THEN With(x, "hc", "head comment") ELSE x
 IsEmptyPlain(x) == x.k = "scalar" /\ x.src = <<"">>
 \* the null written as nothing is generated as the value of a map key only (`key:`), where hand-written files have it
@@ -76,6 +76,9 @@ T(t, x, h) ==
     [] t = 12 -> MapN("block", <<EK(Plain("a"), With(HCd(x, h), "fc", "foot of a")), E("z", Plain("1"))>>)
     [] t = 13 -> MapN("block", <<E("s", SeqN("block", <<With(HCd(x, h), "fc", "foot of item"), Plain("y")>>)), E("z", Plain("1"))>>)
     [] t = 11 -> MapN("block", <<EK(Plain("a"), With(x, "anc", "shared")), E("c", SeqN("block", <<Plain("1"), HCd(With(AliasN("shared"), "lc", "alias line"), h)>>))>>)
+    \* a merge key: m inherits k and j from the anchored map
+    [] t = 14 -> MapN("block", <<E("base", With(MapN("block", <<EK(Plain("k"), HCd(x, h)), E("j", Plain("1"))>>), "anc", "shared")),
+                                 E("m", MapN("block", <<E("<<", AliasN("shared")), E("own", Plain("1"))>>)), E("z", Plain("1"))>>)
 
 \* ---- layouts
 Other == MapN("block", <<E("other", Plain("doc"))>>)
